@@ -394,7 +394,7 @@ pub fn prop(c: &Case) -> Verdict {
     let (Ok(id), Ok(alen)) = (id.parse::<usize>(), alen.parse::<usize>()) else { return Verdict::ok(false, "rp-bad-case") };
     let spec = f_str(c, 2);
     // a single revision that starts with `^` (empty anchor, then `^…`) is the exclusion of the rest
-    let kind = if kind == "s" && spec.first() == Some(&b'^') { "x" } else { kind };
+    let kind = if (kind == "s" || alen == 0) && spec.first() == Some(&b'^') { "x" } else { kind };
     if id >= NREPOS || spec.contains(&b'\n') || kind.is_empty() {
         return Verdict::ok(false, "rp-bad-case");
     }
